@@ -41,7 +41,7 @@ def to_lenient(text):
 class Stmt:
     __slots__ = (
         "kind", "text", "label", "cname", "names", "flags", "cid", "role",
-        "depth", "unit", "uid", "extra",
+        "depth", "unit", "uid", "extra", "oid",
     )
 
     def __init__(self, kind, text, names=(), label=None, cname=None, flags=(), cid=None,
@@ -57,6 +57,7 @@ class Stmt:
         self.depth = 0
         self.unit = None
         self.uid = None
+        self.oid = None
         self.extra = extra or {}
 
     # ---- renderings
@@ -94,6 +95,7 @@ class Stmt:
             "kind": self.kind, "text": self.text, "label": self.label, "cname": self.cname,
             "names": sorted(self.names), "flags": sorted(self.flags), "cid": self.cid,
             "role": self.role, "depth": self.depth, "unit": self.unit, "extra": self.extra,
+            "oid": self.oid,
         }
 
     @classmethod
@@ -102,6 +104,7 @@ class Stmt:
                 d["role"], d.get("extra"))
         s.depth = d["depth"]
         s.unit = d["unit"]
+        s.oid = d.get("oid")
         return s
 
     def __repr__(self):
@@ -117,6 +120,8 @@ class Program:
         self.meta = meta or {}
         for i, s in enumerate(stmts):
             s.uid = i
+            if s.oid is None:
+                s.oid = i
 
     def uses_f2008(self):
         return any("f2008" in s.flags for s in self.stmts)
